@@ -67,7 +67,8 @@
 
 #define MAGS_ADDED (OLD(g_a, sign) == OLD(g_b, sign))
 #define POSTS(P) \
-    P(ret_is_ok_or_mem, RET == PSTM_OKAY || RET == PS_MEM_FAIL) \
+    P(ret_is_ok_or_error_code, RET == PSTM_OKAY || RET == PS_MEM_FAIL || RET == PS_LIMIT_FAIL) \
+    P(limit_error_only_when_the_result_cannot_fit, IMPLIES(RET == PS_LIMIT_FAIL, OLD_MAXU == PSTM_MAX_SIZE)) /* the result would need more than PSTM_MAX_SIZE digits (fixes 414fac1, 4a77cad report this instead of dropping the carry) */ \
     P(ok_result_wf, IMPLIES(RET == PSTM_OKAY, WF(g_c))) \
     P(ok_no_stale_high_digits, IMPLIES(RET == PSTM_OKAY, ZH(g_c))) \
     P(ok_at_most_one_digit_longer, IMPLIES(RET == PSTM_OKAY, g_c.used <= OLD_MAXU + 1 && IMPLIES(!MAGS_ADDED, g_c.used <= OLD_MAXU))) \
